@@ -1,10 +1,10 @@
 //! (d) silhouette score by its O(n^2) definition, clusters of at least two distinct points.
 
 use crate::bound::{agrees, near, Ctx, B, U32, U64};
-use linfa::dataset::DatasetBase;
+use linfa::dataset::{AsSingleTargets, CountedTargets, DatasetBase, Label, Labels};
 use linfa::metrics::SilhouetteScore;
 use linfa::Float;
-use ndarray::{Array1, Array2};
+use ndarray::{Array1, Array2, ArrayBase, Data, Ix2};
 use proptest::prelude::*;
 use serde::{Deserialize, Serialize};
 use vengine::gen::{gauss_matrix, perm_from_keys};
@@ -19,6 +19,12 @@ pub struct SilCase {
     pub cluster: Vec<u8>,
     /// sort keys of the row permutation used for the invariance relation (empty => reversal)
     pub perm: Vec<u16>,
+    /// bit c set => cluster id c is kept by the `with_labels(subset)` history
+    #[serde(default)]
+    pub subset_mask: u8,
+    /// split ratio of the `split_with_ratio` history, in sixteenths (clamped to 1..=15)
+    #[serde(default)]
+    pub ratio_16: u8,
 }
 
 const LABEL_TABLE: [usize; 4] = [5, 2, 9, 0];
@@ -27,13 +33,13 @@ fn f64_of<F: Float>(x: F) -> f64 {
     num_traits::ToPrimitive::to_f64(&x).unwrap_or(f64::NAN)
 }
 
-fn reference(pts: &[Vec<f64>], cl: &[u8], ctx: Ctx) -> B {
+fn reference(pts: &[Vec<f64>], cl: &[usize], ctx: Ctx) -> B {
     let n = pts.len();
     let dist = |i: usize, j: usize| -> B {
         let sq: Vec<B> = pts[i].iter().zip(&pts[j]).map(|(a, b)| ctx.sq(ctx.sub(ctx.lit(*a), ctx.lit(*b)))).collect();
         ctx.sqrt(ctx.sum(&sq))
     };
-    let ids: Vec<u8> = {
+    let ids: Vec<usize> = {
         let mut v = cl.to_vec();
         v.sort_unstable();
         v.dedup();
@@ -64,6 +70,63 @@ fn reference(pts: &[Vec<f64>], cl: &[u8], ctx: Ctx) -> B {
         per_sample.push(ctx.div(ctx.sub(b, a), ctx.max(a, b)));
     }
     ctx.mean(&per_sample)
+}
+
+
+/// Quantifier of the property on concrete samples: two or more clusters, each with >= 2 distinct points.
+fn within_quantifier(pts: &[Vec<f64>], cl: &[usize]) -> bool {
+    let mut ids = cl.to_vec();
+    ids.sort_unstable();
+    ids.dedup();
+    if ids.len() < 2 {
+        return false;
+    }
+    ids.iter().all(|id| {
+        let members: Vec<usize> = (0..pts.len()).filter(|&j| cl[j] == *id).collect();
+        members.len() >= 2 && members.iter().any(|&j| pts[j] != pts[members[0]])
+    })
+}
+
+/// A dataset reached through some construction history: its score must be the textbook value of the
+/// samples it actually holds (records and targets are read back from the dataset itself).
+fn judge_derived<F, L, D, T>(
+    ds: &DatasetBase<ArrayBase<D, Ix2>, T>,
+    key: impl Fn(&L) -> usize,
+    ctx: Ctx,
+    history: &'static str,
+    obs: &mut Obs,
+) where
+    F: Float,
+    L: Label,
+    D: Data<Elem = F>,
+    T: AsSingleTargets<Elem = L> + Labels<Elem = L>,
+{
+    let pts: Vec<Vec<f64>> = ds.records().rows().into_iter().map(|r| r.iter().map(|v| f64_of(*v)).collect()).collect();
+    let cl: Vec<usize> = ds.as_single_targets().iter().map(|l| key(l)).collect();
+    if pts.len() != cl.len() || !within_quantifier(&pts, &cl) {
+        obs.class("derived_dataset_outside_quantifier");
+        return;
+    }
+    let want = reference(&pts, &cl, ctx);
+    if !want.judgeable() {
+        return;
+    }
+    obs.class(history);
+    match obs.call(history, || ds.silhouette_score()) {
+        Some(Ok(v)) => {
+            let v = f64_of(v);
+            obs.ensure(agrees(v, want, ctx), "silhouette:derived-dataset", || {
+                format!(
+                    "{history}: silhouette_score {v}, textbook value of the {} samples the dataset holds is {} (+-{:e})",
+                    pts.len(),
+                    want.v,
+                    want.tol(ctx)
+                )
+            });
+        }
+        Some(Err(e)) => obs.fail("silhouette:error", format!("{history}: silhouette_score returned {e}")),
+        None => {}
+    }
 }
 
 fn run<F: Float>(c: &SilCase, ctx: Ctx, obs: &mut Obs) {
@@ -108,7 +171,8 @@ fn run<F: Float>(c: &SilCase, ctx: Ctx, obs: &mut Obs) {
     obs.class_if(d >= 2, "dim_2plus");
     obs.nontrivial_if(ids.len() >= 3 || unequal || duplicates);
 
-    let want = reference(&pts, &c.cluster, ctx);
+    let cl_ids: Vec<usize> = c.cluster.iter().map(|&k| k as usize).collect();
+    let want = reference(&pts, &cl_ids, ctx);
     if !want.judgeable() {
         obs.skip("reference_not_judgeable");
         return;
@@ -127,6 +191,42 @@ fn run<F: Float>(c: &SilCase, ctx: Ctx, obs: &mut Obs) {
     obs.ensure(agrees(got, want, ctx), "silhouette:value", || {
         format!("silhouette_score {got}, mean of (b-a)/max(a,b) over the samples is {} (+-{:e})", want.v, want.tol(ctx))
     });
+
+
+    // ---- construction histories: the score belongs to the samples, not to how the dataset was built
+    let ident = |l: &usize| *l;
+    judge_derived(&ds.view(), ident, ctx, "history_view", obs);
+    let all_labels: Vec<usize> = ids.iter().map(|&k| LABEL_TABLE[k as usize]).collect();
+    if let Some(wl) = obs.call("with_labels(all)", || ds.with_labels(&all_labels)) {
+        judge_derived(&wl, ident, ctx, "history_with_labels_all", obs);
+        judge_derived(&wl.view(), ident, ctx, "history_with_labels_all_then_view", obs);
+    }
+    let subset: Vec<usize> = ids.iter().filter(|&&k| c.subset_mask & (1 << k) != 0).map(|&k| LABEL_TABLE[k as usize]).collect();
+    if subset.len() >= 2 && subset.len() < ids.len() {
+        if let Some(wl) = obs.call("with_labels(subset)", || ds.with_labels(&subset)) {
+            judge_derived(&wl, ident, ctx, "history_with_labels_subset", obs);
+        }
+        if let Some(wl) = obs.call("view().with_labels(subset)", || ds.view().with_labels(&subset)) {
+            judge_derived(&wl, ident, ctx, "history_view_then_with_labels_subset", obs);
+        }
+    }
+    let counted = DatasetBase::new(rec.clone(), CountedTargets::new(labels.clone()));
+    judge_derived(&counted, ident, ctx, "history_counted_targets_new", obs);
+    let ratio = c.ratio_16.clamp(1, 15) as f32 / 16.0;
+    if let Some((first, second)) = obs.call("split_with_ratio(owned)", || ds.clone().split_with_ratio(ratio)) {
+        judge_derived(&first, ident, ctx, "history_split_first_part", obs);
+        judge_derived(&second, ident, ctx, "history_split_second_part", obs);
+    }
+    let dv = ds.view();
+    if let Some((first, second)) = obs.call("split_with_ratio(view)", || dv.split_with_ratio(ratio)) {
+        judge_derived(&first, ident, ctx, "history_view_split_first_part", obs);
+        judge_derived(&second, ident, ctx, "history_view_split_second_part", obs);
+    }
+    if let Some(Ok(parts)) = obs.call("one_vs_all", || ds.one_vs_all()) {
+        for (_, part) in parts.iter() {
+            judge_derived(part, |b: &bool| *b as usize, ctx, "history_one_vs_all", obs);
+        }
+    }
 
     let perm: Vec<usize> = if c.perm.is_empty() { (0..n).rev().collect() } else { perm_from_keys(&c.perm, n) };
     if perm.len() == n && perm.iter().all(|&i| i < n) {
@@ -155,7 +255,7 @@ pub fn check(c: &SilCase, obs: &mut Obs) {
 pub fn strategy(_t: Tier) -> impl Strategy<Value = SilCase> {
     // k clusters with sizes >= 2, n = sum <= 30; full-size raw material, truncated (shrinks well)
     (
-        (2usize..=4, 1usize..=3, any::<bool>(), 0u8..3),
+        (2usize..=4, 1usize..=3, any::<bool>(), 0u8..3, 0u8..16, 1u8..=15),
         proptest::collection::vec(0usize..=13, 4),
         proptest::collection::vec(proptest::collection::vec(-4i32..=4, 3), 4),
         gauss_matrix(30, 3),
@@ -163,15 +263,15 @@ pub fn strategy(_t: Tier) -> impl Strategy<Value = SilCase> {
         proptest::collection::vec(any::<u16>(), 30),
         proptest::collection::vec(any::<u16>(), 30),
     )
-        .prop_map(|((k, d, f32_, kind), extra, centres, g, li, order, perm)| {
+        .prop_map(|((k, d, f32_, kind, mask, ratio), extra, centres, g, li, order, perm)| {
             let max_extra = 30 / k - 2;
             let extra: Vec<usize> = extra.into_iter().take(k).map(|e| e.min(max_extra)).collect();
             let n: usize = extra.iter().map(|e| e + 2).sum();
             let order: Vec<u16> = order.into_iter().take(n).collect();
             let perm: Vec<u16> = perm.into_iter().take(n).collect();
-            ((d, f32_, kind, extra, centres), g, li, order, perm)
+            ((d, f32_, kind, mask, ratio, extra, centres), g, li, order, perm)
         })
-        .prop_map(|((d, f32_, kind, extra, centres), g, li, order, perm)| {
+        .prop_map(|((d, f32_, kind, mask, ratio, extra, centres), g, li, order, perm)| {
             let mut points = vec![];
             let mut cluster = vec![];
             let mut row = 0usize;
@@ -201,6 +301,6 @@ pub fn strategy(_t: Tier) -> impl Strategy<Value = SilCase> {
             let ord = perm_from_keys(&order, points.len());
             let points = ord.iter().map(|&i| points[i].clone()).collect();
             let cluster = ord.iter().map(|&i| cluster[i]).collect();
-            SilCase { f32: f32_, points, cluster, perm }
+            SilCase { f32: f32_, points, cluster, perm, subset_mask: mask, ratio_16: ratio }
         })
 }
